@@ -307,7 +307,7 @@ CLAIMED = {
        "is tied to the real file-system behaviour by an exhaustive correspondence (8 target states x 4 levels x 4 answers for save; "
        "x tolerant x unreadable member for load) on a real temp directory, plus round trips.",
   note="The write phase after the first os.mkdir(path) is one abstract event (scanned syntactically for destructive calls on path). "
-       "File system, pickle and glob are exercised, not modelled beyond 8 target states. Known finding C20-F20b is replayed each run; F-20 (declined overwrite) and F-20c (empty collection) were found by this check and repaired.",
+       "File system, pickle and glob are exercised, not modelled beyond 8 target states. F-20 (declined overwrite), F-20b (tolerant loading with saved arrays) and F-20c (empty collection) were found by this check and repaired.",
   technique="Coq proof over a model regenerated from source (py2v) + exhaustive differential correspondence",
   design="§8 C20"),
 }
